@@ -345,7 +345,18 @@ class C30(Prop):
             return None            # the reference rejects the tool or the tool fails under it: nothing to be identical to
         if "fail" in sf:
             return ("sf-fails", f"cwltool runs the tool (argv {ref['argv']}), under StreamFlow it does not complete")
-        if sf["argv"] != ref["argv"]:
+        def norm(side):
+            # HOME and TMPDIR are the runner's own directories: an argument in which the shell expanded them because
+            # the tool asked for it (shellQuote: false) is compared up to their values
+            out = []
+            for a in side["argv"]:
+                for k, tag in (("tmpdir", "<TMPDIR>"), ("home", "<HOME>")):
+                    if side.get(k):
+                        a = a.replace(side[k], tag)
+                out.append(a)
+            return out
+
+        if norm(sf) != norm(ref):
             return ("argv", f"argv under cwltool {json.dumps(ref['argv'])}, under StreamFlow {json.dumps(sf['argv'])}")
         if sf["env"] != ref["env"]:
             return ("env", f"EnvVarRequirement environment under cwltool {ref['env']}, under StreamFlow {sf['env']}")
